@@ -499,6 +499,7 @@ impl Property for C19 {
     }
     fn assumptions(&self) -> Vec<&'static str> {
         vec![
+            "transport tier, selective mode: GossipState::queue_deltas walks a std HashMap keyed by target, so the order of one tick's targeted messages (and the step count of the run) is not a function of the tape; the oracle judges only order-independent facts, and a replay of such a run may need more than one attempt",
             "'responsible replicas' of an update are get_replicas(key) on the sender's own ring at the moment it routes (the only definition the code offers); the per-delta ReplicatedValue.replication_factor override is left None because no routing code reads it",
             "a node's router is told the address of every member of that node's view (join carries the address, leave drops it), so ring members without an address are a router fault, not a harness choice",
             "from_config is given what its doc comment asks for: ids 1..n, config.peers = the other nodes' addresses in id order",
